@@ -69,7 +69,16 @@ class Run:
         self.analysed['rules'].setdefault(rule, {'text': '', 'instances': 0, 'findings': 0})['instances'] += 1
         self.analysed['functions'].add(where)
 
+    NOT_FOLLOWED = ('Unknown(', '<sa.core.', '<sa.domains.')
+
     def finding(self, rule, where, construct, message, loc='', trace=None):
+        if any(m in message for m in self.NOT_FOLLOWED):
+            # safety net behind the rules: a report whose own text shows a value the interpretation lost (Unknown(...), an engine object
+            # that is not a value of the program) is not a statement about the program.  It is a refusal, never a finding.
+            err = '%s @ %s: a value this rule judges was not followed (%s :: %s)' % (rule, where, construct, message[:300])
+            if err not in self.errors:
+                self.errors.append(err)
+            return None
         f = Finding(self.prop, rule, where, construct, message, loc, trace)
         # de-duplicate by key
         for g in self.findings:
